@@ -382,7 +382,7 @@ func judgeC10(c c10Case) (string, string) {
 		under = d
 	}
 	if c.Multi {
-		comp, err := compositeOf(c.Tree)
+		comp, err := compositeOf(c.Tree, 0)
 		if err != nil {
 			return "infra", err.Error()
 		}
